@@ -115,6 +115,41 @@ def classify_cap(events, tuples):
     return "block-cap-exceeded:blocks-in-pools-the-request-may-not-use-are-not-counted"
 
 
+def classify_orphan(events, tuples):
+    """An affine block without any claim of its owner.  Known class: a ClaimAffinity of host X found X's claim
+    confirmed (so did not re-write it) and created the block while a ReleaseAffinity of the same host X (another
+    process) was deleting block and claim: the orphan appears either with the releaser's 'delete affinity' (claimer
+    between 'create block' and 'confirm') or with the claimer's 'create block' (releaser already done)."""
+    for owner, bk, n, _ in tuples:
+        host = owner.split(":", 1)[-1]
+        calls, start, rel_deleted = {}, {}, []
+        verdict = None
+        for i, e in enumerate(events):
+            if e["ev"] == "call":
+                calls[e["c"]] = e
+                start[e["c"]] = i
+            elif e["ev"] in ("ret", "crash"):
+                calls.pop(e["c"], None)
+            elif e["ev"] == "kv":
+                mine = calls.get(e["c"], {})
+                if e["kind"] == "aff" and e["op"] == "delete" and e["err"] == "" and not e["inj"] and \
+                        mine.get("op") == "relaff" and mine.get("host") == host and e["key"].endswith(bk[1:]):
+                    rel_deleted.append(i)
+                if e.get("n") == n:
+                    claimers = [c for k, c in calls.items() if k != e["c"] and c.get("op") == "claim" and c.get("host") == host]
+                    if e["op"] == "delete" and e["kind"] == "aff" and mine.get("op") == "relaff" and mine.get("host") == host and claimers:
+                        verdict = True
+                    elif e["op"] == "create" and e["kind"] == "block" and mine.get("op") == "claim" and mine.get("host") == host \
+                            and any(j > start[e["c"]] for j in rel_deleted):
+                        verdict = True
+                    else:
+                        verdict = False
+                    break
+        if not verdict:
+            return "orphan-block:unexplained"
+    return "orphan-block:claimaffinity-races-releaseaffinity-of-the-same-host"
+
+
 def handle_soft(ctx, P, kind="handle-agreement", classify=None, what="crash-free quiescent state: handle count != addresses owned in block"):
     """Report the soft findings of one kind found in the last validation run of this leg."""
     classify = classify or classify_overcount
